@@ -1212,8 +1212,10 @@ caption_command(vbi_decoder *vbi, struct caption *cc,
 				vbi_char *acp = &ch->pg[ch->hidden ^ (ch->mode != MODE_POP_ON)]
 					.text[ch->row1 * COLUMNS];
 
+				/* Updates the displayed row except in
+				   pop-on mode, where the row becomes
+				   visible only with End Of Caption. */
 				word_break(cc, ch, 1);
-				update(ch);
 
 				memmove(acp, acp + COLUMNS, sizeof(*acp) * (ch->roll - 1) * COLUMNS);
 
